@@ -831,6 +831,14 @@ class ZonalStatistics(AccessorBase):
         if "nodata" not in zones.attrs:
             raise ValueError("Zones xarray DataArray needs nodata attribute")
 
+        # the kernel walks the raster as (T, Y, X) next to the zones as (Y, X):
+        # bring the dimensions of the zones last, whatever order the cube has
+        if xx.ndim != 3 or not set(zones.dims) < set(xx.dims):
+            raise ValueError("Input needs to be 3-d with the dimensions of zones")
+        xx = xx.transpose(..., *zones.dims)
+        if xx.shape[1:] != zones.shape:
+            raise ValueError("Zones need to have the same shape as the input raster")
+
         # set null values to nodata value
         xx = xx.where(xx.notnull(), xx.nodata)
         attrs = xx.attrs
